@@ -157,7 +157,9 @@ class InterestTreeNode:
         remaining = []
         for entry in self.pending_list:
             if bytes(entry.implicit_sha256) == bytes(implicit_sha256):
-                entry.future.set_exception(types.InterestNack(nack_reason))
+                # The caller may have given up in this very loop iteration: its entry is still listed
+                if not entry.future.done():
+                    entry.future.set_exception(types.InterestNack(nack_reason))
             else:
                 remaining.append(entry)
         self.pending_list = remaining
